@@ -37,6 +37,17 @@ def world(n_chr):
     w["genes"].append(W.locus_gene("GS", last, "+", 1000, {"TS_1": [2, 3, 4]}))
     w["genes"].append(W.locus_gene("GX", last, "-", 1000, {"TX_1": [1, 2]}))
     w["genes"].append(W.locus_gene("AA", last, "+", 1000, {"TAA_1": [3, 4, 5]}))
+    # a novel isoform that shares equally many annotated introns with two overlapping same-strand genes (its first intron belongs to the
+    # GA gene of this chromosome and to GT, its second intron is novel): which gene it is attached to must not depend on set order
+    e01 = W.exons(1000, [0, 1])
+    w["genes"].append({"id": "GT", "chr": last, "strand": "+", "transcripts": [{"id": "TT_1", "exons": e01 + [[4601, 4800]]}]})
+    from vlib import syn
+    syn.plant_for_transcripts(w)
+    tie = e01 + [[4301, 4550]]
+    W.add_sites_for_blocks(w, last, tie, "+")
+    W.dedup_sites(w)
+    for i in range(6):
+        w["reads"].append(W.read_of("tie%d_g%s" % (i, "ABC"[i % 3]), last, tie))
     return w
 
 
